@@ -14,13 +14,17 @@ class _NoFold(Exception):
     pass
 
 
+class _Table(dict):
+    """A folded dict literal (lookup table with integer keys / values)."""
+
+
 _BUILTINS = {'divmod': divmod, 'min': min, 'max': max, 'abs': abs, 'int': int, 'bool': bool, 'pow': pow, 'round': round,
              'math.ceil': math.ceil, 'math.floor': math.floor, 'ceil': math.ceil, 'floor': math.floor, 'math.trunc': math.trunc}
 
 
 def fold(node, env):
     """Constant folding of a closed integer expression by the checker's own evaluator (no repo code runs)."""
-    if isinstance(node, ast.Constant) and isinstance(node.value, int):
+    if isinstance(node, ast.Constant) and (isinstance(node.value, int) or node.value is None):
         return node.value
     if isinstance(node, ast.Name) and node.id in env:
         return env[node.id]
@@ -38,6 +42,8 @@ def fold(node, env):
             base = fold(node.value, env)
             i = fold(node.slice, env)
             if isinstance(base, (tuple, range)) and isinstance(i, int) and -len(base) <= i < len(base):
+                return base[i]
+            if isinstance(base, _Table) and i in base:
                 return base[i]
         raise _NoFold(t)
     if isinstance(node, (ast.GeneratorExp, ast.ListComp)) and len(node.generators) == 1 and isinstance(node.generators[0].target, ast.Name) \
@@ -62,6 +68,15 @@ def fold(node, env):
         raise _NoFold(ast.unparse(node))
     if isinstance(node, (ast.Tuple, ast.List, ast.Set)):
         return tuple(fold(e, env) for e in node.elts)
+    if isinstance(node, ast.Dict) and all(k is not None for k in node.keys):
+        return _Table((fold(k, env), fold(v, env)) for k, v in zip(node.keys, node.values))
+    if isinstance(node, ast.Call) and isinstance(node.func, ast.Attribute) and node.func.attr == 'get' and not node.keywords and \
+            1 <= len(node.args) <= 2 and isinstance(node.func.value, (ast.Name, ast.Attribute, ast.Dict)):
+        base = fold(node.func.value, env)
+        if isinstance(base, _Table):
+            k = fold(node.args[0], env)
+            return base[k] if k in base else (fold(node.args[1], env) if len(node.args) == 2 else None)
+        raise _NoFold(ast.unparse(node))
     if isinstance(node, ast.Call) and isinstance(node.func, ast.Name) and node.func.id == 'range' and 'range' not in env and \
             not node.keywords and 1 <= len(node.args) <= 3:
         args = [fold(a, env) for a in node.args]
@@ -101,8 +116,13 @@ def fold(node, env):
             b = fold(cn, env)
             a = left
             op = type(opn)
+            if op in (ast.Is, ast.IsNot) and (a is None or b is None):
+                if ((a is None) == (b is None)) != (op is ast.Is):
+                    return False
+                left = b
+                continue
             if op in (ast.In, ast.NotIn):
-                if not isinstance(b, (tuple, range)):
+                if not isinstance(b, (tuple, range, _Table)):
                     raise _NoFold(ast.unparse(node))
                 if (a in b) != (op is ast.In):
                     return False
@@ -205,12 +225,13 @@ def _nofold(node):
     raise _NoFold(ast.unparse(node))
 
 
-def class_constants(prog, ci, first='self'):
+def class_constants(prog, ci, first='self', seed=None):
     """Integer constants (and tuples of integers: lookup tables, also built by a comprehension over a closed range) a method of
     class `ci` can name: class-level NAME = ... (as self.NAME / K.NAME / type(self).NAME ...) and module-level NAME = ..."""
     def const(v):
-        return isinstance(v, int) or (isinstance(v, tuple) and all(isinstance(x, int) for x in v))
-    env = {}
+        return isinstance(v, int) or (isinstance(v, tuple) and all(isinstance(x, int) for x in v)) or \
+            (isinstance(v, _Table) and all(isinstance(x, int) for x in list(v) + list(v.values())))
+    env = dict(seed or {})
     for name, node in ci.module.assigns.items():
         try:
             v = fold(node, env) if isinstance(node, ast.AST) else None
@@ -507,3 +528,38 @@ def check_s2k_codec(rep, prog, rid):
             rep.check(ok, rid, 'String2Key.__copy__', 'count copied in coded form',
                       'a copy must carry the coded count octet, not the decoded value', where=cp.where,
                       expected='<copy>.count = self.%s' % backing, found=got)
+
+
+RFC_DIGEST_OCTETS = {'MD5': 16, 'SHA1': 20, 'RIPEMD160': 20, 'SHA224': 28, 'SHA256': 32, 'SHA384': 48, 'SHA512': 64}
+
+
+def check_digest_sizes(rep, prog, rid):
+    """HashAlgorithm.digest_size: wherever it is answered from a literal / table instead of the hash object, the value must be the
+    digest length of the algorithm (it decides how many S2K contexts are set up)."""
+    ci = prog.cls('pgpy.constants', 'HashAlgorithm')
+    g = (ci.find_plain_prop('digest_size') or {}).get('get') or ci.find_method('digest_size')
+    if g is None:
+        raise AnalysisError('HashAlgorithm.digest_size vanished')
+    rep.saw(fn=g)
+    me = g.params[0]
+    members = ci.enum_members()
+    seed = {}
+    for k, v in members.items():
+        if isinstance(v, int):
+            seed['%s.%s' % (ci.name, k)] = v
+            seed['%s.%s' % (me, k)] = v
+    consts = class_constants(prog, ci, me, seed)
+    for name, octets in sorted(RFC_DIGEST_OCTETS.items()):
+        if name not in members:
+            continue
+        env = dict(consts)
+        env[me] = members[name]
+        env['%s.value' % me] = members[name]
+        try:
+            kind, got, _st = fold_fn(g.node, env)
+        except _NoFold as ex:
+            rep.ok(rid, 'HashAlgorithm.digest_size', '%s: read from the hash object (%s)' % (name, ex), scenario=name)
+            continue
+        rep.check(kind == 'return' and got == octets, rid, 'HashAlgorithm.digest_size', '%s -> %s' % (name, got if kind == 'return' else 'raise'),
+                  'the digest length of %s is %d octets: a wrong table entry changes the number of S2K hash contexts (and every other use '
+                  'of the digest length)' % (name, octets), where=g.where, expected=octets, found=got if kind == 'return' else 'raise', scenario=name)
